@@ -211,6 +211,8 @@ func init() {
 					pub1("T0", "", 0),
 					pull("S0", 10), pull("S1", 10),
 					ack("S0", "all"), ack("S0", "foreign"), ack("S1", "stale"),
+					// one request carrying ids of BOTH subscriptions: its own ids are settled
+					ack("S0", "span"), ack("S1", "span"),
 					modack("S0", "foreign", 0), nack("S1", "stale"),
 					tick("lease+"),
 				},
@@ -493,6 +495,9 @@ func init() {
 				}},
 				Alphabet: []model.Op{
 					pub1("T0", "", 0), pull("S0", 10), pullAbandon("S0"), pullAbandon("S1"),
+					// ... and one the SERVER ends empty after its full wait: the idle clock
+					// restarts when the pull ENDS
+					pullW("S1", 10),
 					job("delete-expired-subscriptions", 0, 100),
 					tick("ret+"), tick("ttl-"), tick("ttl+"),
 				},
